@@ -838,7 +838,9 @@ class TrueTypeFont:
                         fp.seek(pos + 2 * seg + idr)
                         for c in range(sc, ec + 1):
                             b = cast(Tuple[int], struct.unpack(">H", fp.read(2)))[0]
-                            char2gid[c] = (b + idd) & 0xFFFF
+                            # 0 in the glyph index array means "missing
+                            # glyph"; idDelta only applies to other values.
+                            char2gid[c] = (b + idd) & 0xFFFF if b else 0
                     else:
                         for c in range(sc, ec + 1):
                             char2gid[c] = (c + idd) & 0xFFFF
